@@ -47,6 +47,30 @@ def run(unit, em):
         if short in ANCHORS:
             em.anchor(fn, short)
         cfg = fn.cfg()
+        # ---- R9 who-may-write: the owning root_ of an MTBDD object is re-seated only by the constructors, operator= and
+        # deleteMTBDD (which pair the write with the reference-count traffic checked by R1-R4); a write anywhere else —
+        # also through a local reference bound to `x.root_` — moves the root without moving the reference
+        if in_mtbdd:
+            from .prov import var_table as _vt
+            vt9 = _vt(fn)
+            aliases = set()
+            for d9, v9 in vt9.items():
+                if v9['kind'] == 'local' and unit.ty(v9['decl']).rstrip().endswith('&') and is_node(v9['decl'].get('init')):
+                    i9 = strip(v9['decl']['init'])
+                    if i9 is not None and i9['k'] == 'MemberExpr' and i9.get('n') == 'root_':
+                        aliases.add(d9)
+            for n in fn.walk():
+                if n['k'] in ('BinaryOperator', 'CXXOperatorCallExpr') and n.get('op') == '=':
+                    ops = n.get('ch') if n['k'] == 'BinaryOperator' else n.get('args')
+                    l = strip(ops[0]) if ops else None
+                    hit = l is not None and ((l['k'] == 'MemberExpr' and l.get('n') == 'root_') or (l['k'] == 'DeclRefExpr' and l.get('d') in aliases))
+                    if not hit:
+                        continue
+                    txt9 = unit.text(n, 60)
+                    if fn.d.get('fk') == 'ctor' or name in ('operator=', 'deleteMTBDD'):
+                        em.ok(n, txt9, 'root re-seated by %s' % name, 'R9')
+                    else:
+                        em.violation(n, txt9, 'the owning root of an MTBDD object is overwritten in %s (only the constructors, operator= and deleteMTBDD may, together with the reference-count update): the object now points to a node it holds no reference on, and the old root keeps one too many' % name, 'R9')
         # ---- R8 who-may-call (any function of the repo)
         for c in fn.calls():
             cn = cname(c)
